@@ -140,6 +140,8 @@ type answer struct {
 	Deleted bool   `json:"profile_deleted,omitempty"`
 	Err     string `json:"err,omitempty"`
 	BadErr  bool   `json:"bad_err,omitempty"`
+	// NoProfile: the error is (wraps) ErrProfileNotFound.
+	NoProfile bool `json:"profile_not_found,omitempty"`
 }
 
 func (a answer) short() string {
@@ -159,6 +161,7 @@ func devVer(d *agd.Device) string   { return string(d.Name) }
 func normalise(p *agd.Profile, d *agd.Device, err error) (a answer) {
 	if err != nil {
 		a.Err = err.Error()
+		a.NoProfile = errors.Is(err, profiledb.ErrProfileNotFound)
 		if !errors.Is(err, profiledb.ErrDeviceNotFound) && !errors.Is(err, profiledb.ErrProfileNotFound) {
 			a.BadErr = true
 		}
@@ -224,6 +227,9 @@ type expectation struct {
 	// consumer treats a deleted profile as not found).
 	DeletedOwner bool
 	Ambiguous    bool
+	// NoProfile: a human-id key whose profile has no record at all; the
+	// interface documents that the answer must then be ErrProfileNotFound.
+	NoProfile bool
 }
 
 func (e expectation) short() string {
@@ -234,6 +240,8 @@ func (e expectation) short() string {
 		return fmt.Sprintf("%s@%s/%s@%s", e.P.ID, profVer(e.P), e.D.ID, devVer(e.D))
 	case e.DeletedOwner:
 		return "not-found-or-deleted-profile"
+	case e.NoProfile:
+		return "not-found(profile not found)"
 	default:
 		return "not-found"
 	}
@@ -291,6 +299,11 @@ func (m *model) expect(k lkey) (e expectation) {
 	case len(dead) > 0:
 		return expectation{DeletedOwner: true}
 	}
+	if k.K == kHuman {
+		if _, ok := m.profs[k.Prof]; !ok {
+			return expectation{NoProfile: true}
+		}
+	}
 	return expectation{}
 }
 
@@ -327,6 +340,9 @@ func judge(k lkey, e expectation, a answer) (class string) {
 		return "answer-from-deleted-or-stale"
 	default:
 		if !a.Found {
+			if e.NoProfile && !a.NoProfile {
+				return "profile-not-found-expected"
+			}
 			return ""
 		}
 		if a.Deleted {
@@ -753,6 +769,18 @@ func (h *hookCtl) cb(point string) {
 	<-g.ch
 }
 
+func (h *hookCtl) hitsOf(point string) int64 { h.mu.Lock(); defer h.mu.Unlock(); return h.hits[point] }
+
+func (h *hookCtl) allHits() map[string]int64 {
+	h.mu.Lock()
+	defer h.mu.Unlock()
+	out := map[string]int64{}
+	for k, v := range h.hits {
+		out[k] = v
+	}
+	return out
+}
+
 func (h *hookCtl) nParked() int { h.mu.Lock(); defer h.mu.Unlock(); return len(h.parked) }
 
 func (h *hookCtl) setStep(s int) { h.mu.Lock(); h.step = s; h.mu.Unlock() }
@@ -826,8 +854,15 @@ func (q *quiesce) settle() bool {
 		settleCalls++
 	}()
 	for i := 0; ; i++ {
-		if q.alive() == q.h.nParked() {
+		a, n := q.alive(), q.h.nParked()
+		if a == n {
 			return true
+		}
+		if a < n {
+			// impossible (a parked goroutine is alive): the baseline was
+			// taken while a transient runtime goroutine existed
+			q.baseline -= n - a
+			continue
 		}
 		if i < 50 {
 			runtime.Gosched()
